@@ -156,3 +156,36 @@ func (c *Ctx) checkShapeContains(rule, fnKey string, f *ssa.Function, got map[st
 		}
 	}
 }
+
+// abbr shortens the ubiquitous chain-state accessor chains in rendered shapes.
+func abbr(s string) string {
+	r := strings.NewReplacer(
+		"(*internal/blockchain.ChainState).GetPosteriorStates(internal/blockchain.GetInstance())", "POST",
+		"(*internal/blockchain.ChainState).GetPriorStates(internal/blockchain.GetInstance())", "PRIOR",
+		"(*internal/blockchain.ChainState).GetIntermediateStates(internal/blockchain.GetInstance())", "INTER",
+		"(*internal/blockchain.ChainState).GetLatestBlock(internal/blockchain.GetInstance())", "BLOCK",
+		"(*internal/blockchain.PosteriorStates).", "post.",
+		"(*internal/blockchain.PriorStates).", "prior.",
+		"(*internal/blockchain.IntermediateStates).", "inter.",
+		"internal/utilities/", "",
+		"internal/types.", "types.",
+	)
+	return r.Replace(s)
+}
+
+func abbrAll(xs []string) []string {
+	out := make([]string, len(xs))
+	for i, x := range xs {
+		out[i] = abbr(x)
+	}
+	sort.Strings(out)
+	return out
+}
+
+func abbrMap(m map[string][]string) map[string][]string {
+	out := map[string][]string{}
+	for k, v := range m {
+		out[k] = abbrAll(v)
+	}
+	return out
+}
